@@ -69,6 +69,7 @@ pub fn run(ctx: &Ctx) -> Report {
         p2(classic_ops(), ctx.pick(vec![vec![1], vec![0x80]], vec![vec![], vec![1], vec![0x80]])),
         p4(ctx.pick(16, 80), false),
         p5_full(),
+        p_guard_then_op(),
         p_limits(!ctx.quick()),
     ];
     let seed = ctx.seed;
